@@ -211,7 +211,11 @@ def _pad_product(psi):
 def check_converges(case, rec):
     H = build_ham(case['ham'])
     psi = build_mps(case['psi'])
-    if case.get('padded_product') and len(psi.A) >= 2 and np.linalg.norm(dense_state(psi)) > 0:
+    # only for the single-site algorithm: it never changes a bond dimension, so the padded manifold stays complete; the two-site
+    # algorithm drops exactly-zero singular values at its first split, after which the premise "complete manifold" no longer holds
+    # (a first version padded two-site runs as well and raised a false alarm in the thorough tier: a basis state that every two-site
+    # window leaves invariant is a fixed point of any local solver without being an eigenstate of H)
+    if case.get('padded_product') and case['algorithm'] == 'single' and len(psi.A) >= 2 and np.linalg.norm(dense_state(psi)) > 0:
         if _pad_product(psi):
             rec.label('zero_padded_product_start')
     L = len(psi.A); d = len(psi.qd)
